@@ -232,7 +232,7 @@ impl Sink for WorkerSink {
             }
         }
     }
-    fn case(&mut self, c: Case) -> Option<Outcome> {
+    fn case(&mut self, c: Case) -> Option<(Outcome, refdec::Ref)> {
         let sub = self.sub;
         self.sub += 1;
         if self.cur == self.start.0 && sub < self.start.1 {
@@ -275,7 +275,7 @@ impl Sink for WorkerSink {
             self.sampled_pad = true;
             self.sample("padding-only-truncation", &c, &obs, &j.refr.describe());
         }
-        Some(j.outcome)
+        Some((j.outcome, j.refr))
     }
     fn note_padding_only(&mut self, decoded_same: bool) {
         self.shm.add(S_PAD_ONLY, 1);
@@ -288,9 +288,6 @@ impl Sink for WorkerSink {
         if self.shm.get(S_MACH) <= 5 {
             let _ = writeln!(self.out, "{}", json!({"t": "machinery", "msg": msg}));
         }
-    }
-    fn evaluating(&self) -> bool {
-        true
     }
 }
 
@@ -505,7 +502,7 @@ impl Sink for CaptureSink {
         }
     }
     fn note_roundtrip(&mut self, _: &Schedule, _: &str) {}
-    fn case(&mut self, c: Case) -> Option<Outcome> {
+    fn case(&mut self, c: Case) -> Option<(Outcome, refdec::Ref)> {
         if self.active && self.cur_sub == self.sub {
             self.out = Some(c);
         }
@@ -514,9 +511,6 @@ impl Sink for CaptureSink {
     }
     fn note_padding_only(&mut self, _: bool) {}
     fn machinery(&mut self, _: String) {}
-    fn evaluating(&self) -> bool {
-        false
-    }
 }
 
 fn capture_case(f: Family, tier: Tier, item: u64, sub: u64, run_encoder: bool) -> (Option<Case>, Option<Schedule>) {
@@ -768,36 +762,51 @@ fn check_main(id: &str, tier: Tier) -> ! {
     let wall_cap = if tier.is_thorough() { Duration::from_secs(22 * 60) } else { Duration::from_secs(40) };
     let deadline = ctx.start + wall_cap;
 
-    let mut jobs: VecDeque<(Family, u64, u64)> = VecDeque::new();
-    for f in Family::ALL {
-        let n = f.shards(tier);
-        for i in 0..n {
-            // VERIF_SEED only rotates the order in which the shards of a family are started
-            jobs.push_back((f, (i + ctx.seed) % n, n));
-        }
-    }
-    let njobs = jobs.len();
-    let queue = Arc::new(Mutex::new(jobs));
+    // development aid: VX_C16_ONLY=<family> runs one family (the run is then reported as not exhaustive)
+    let only = std::env::var("VX_C16_ONLY").ok().and_then(|s| Family::from_name(&s));
     let results: Arc<Mutex<Vec<JobResult>>> = Arc::new(Mutex::new(Vec::new()));
-    // the shards of the families in which the decoder kills workers mostly wait for process
-    // restarts, so run more shard supervisors than cores
-    let par = (std::thread::available_parallelism().map(|n| n.get()).unwrap_or(4) * 2).clamp(2, 32);
-    let mut threads = Vec::new();
-    for _ in 0..par {
-        let (queue, results, exe, scratch) = (queue.clone(), results.clone(), exe.clone(), scratch.clone());
-        threads.push(std::thread::spawn(move || loop {
-            let job = queue.lock().unwrap().pop_front();
-            match job {
-                Some((f, shard, n)) => {
-                    let r = run_job(&exe, &scratch, tier, f, shard, n, deadline);
-                    results.lock().unwrap().push(r);
-                }
-                None => break,
+    let cores = std::thread::available_parallelism().map(|n| n.get()).unwrap_or(4).clamp(1, 16);
+    let mut njobs = 0usize;
+    // Two phases.  First the families in which the decoder kills workers (and the tiny ones): their
+    // shards are latency-bound (fork / die / re-create / fork), so they run all at once and before
+    // the CPU-bound families, which would otherwise starve them.  Then the CPU-bound families, one
+    // shard per core.
+    for phase in 0..2 {
+        let mut jobs: VecDeque<(Family, u64, u64)> = VecDeque::new();
+        for f in Family::ALL {
+            if only.is_some() && only != Some(f) {
+                continue;
             }
-        }));
-    }
-    for t in threads {
-        let _ = t.join();
+            let cpu_bound = matches!(f, Family::Seq3 | Family::Long | Family::Boundary);
+            if cpu_bound != (phase == 1) {
+                continue;
+            }
+            let n = f.shards(tier);
+            for i in 0..n {
+                // VERIF_SEED only rotates the order in which the shards of a family are started
+                jobs.push_back((f, (i + ctx.seed) % n, n));
+            }
+        }
+        njobs += jobs.len();
+        let par = if phase == 0 { jobs.len().clamp(1, 40) } else { cores };
+        let queue = Arc::new(Mutex::new(jobs));
+        let mut threads = Vec::new();
+        for _ in 0..par {
+            let (queue, results, exe, scratch) = (queue.clone(), results.clone(), exe.clone(), scratch.clone());
+            threads.push(std::thread::spawn(move || loop {
+                let job = queue.lock().unwrap().pop_front();
+                match job {
+                    Some((f, shard, n)) => {
+                        let r = run_job(&exe, &scratch, tier, f, shard, n, deadline);
+                        results.lock().unwrap().push(r);
+                    }
+                    None => break,
+                }
+            }));
+        }
+        for t in threads {
+            let _ = t.join();
+        }
     }
     let mut results = std::mem::take(&mut *results.lock().unwrap());
     results.sort_by_key(|r| (Family::ALL.iter().position(|f| *f == r.family).unwrap_or(99), r.shard));
@@ -808,7 +817,7 @@ fn check_main(id: &str, tier: Tier) -> ! {
     // ---- aggregate
     let mut total = vec![0u64; SLOTS];
     let mut fam_cov = Map::new();
-    let mut exhaustive = true;
+    let mut exhaustive = only.is_none();
     let mut caps: Vec<String> = Vec::new();
     let mut crashes = 0u64;
     let mut all_findings: Vec<FindingRec> = Vec::new();
@@ -816,6 +825,9 @@ fn check_main(id: &str, tier: Tier) -> ! {
     let mut samples: Vec<Value> = Vec::new();
     let mut hashes: Vec<u64> = Vec::new();
     for f in Family::ALL {
+        if only.is_some() && only != Some(f) {
+            continue;
+        }
         let rs: Vec<&JobResult> = results.iter().filter(|r| r.family == f).collect();
         let mut items_done = 0u64;
         let mut decodes = 0u64;
@@ -917,8 +929,8 @@ fn check_main(id: &str, tier: Tier) -> ! {
          long (12 patterns x every length 0..=long_max x seeds, plus lengths 16383..16385), each schedule in its printed form and \
          every re-formatting variant, every proper prefix per hex digit (all for encodings <= prefix_bound digits; head 32, tail 96 \
          and the needed/padding frontier +-8 otherwise), single-digit deletions, non-hex substitutions, trailing bytes; hdrsub \
-         (every single-hex-digit substitution in every header byte of 189 base encodings), width (21 width fields x 5 lengths x 4 \
-         payload patterns x 24 payload sizes), length (44 length fields x 3 widths x 2 patterns x 5 payload sizes), magic (every \
+         (every single-hex-digit substitution in every header byte of 9 base schedules per seed), width (21 width fields x 5 lengths x 4 \
+         payload patterns x 24 payload sizes), length (44 length fields 1..2^64-1 x widths x 2 patterns x payload sizes), magic (every \
          first byte != 0x91 x 5 bodies), fixed (empty / whitespace-only / non-hex literals, every single ASCII character).",
     );
     res.cov("bounds", json!({"seq3_max_len": b.seq_len, "seq3_pairs": gen::seq_pairs().len(), "seq3_seeds": gen::seq_seeds().len(),
